@@ -224,7 +224,17 @@ impl<K: Ord, V> BTreeMap<K, V> {
         }
     }
     pub fn iter(&self) -> Iter<'_, K, V> {
-        Iter { map: self, last: None, done: false }
+        Iter { map: self, last: None, done: false, lo: None, hi: None }
+    }
+    /// entries with keys inside `r`, in key order
+    pub fn range<R: std::ops::RangeBounds<K>>(&self, r: R) -> Iter<'_, K, V>
+    where
+        K: Clone,
+    {
+        use std::ops::Bound::*;
+        let lo = match r.start_bound() { Included(k) => Some((k.clone(), true)), Excluded(k) => Some((k.clone(), false)), Unbounded => None };
+        let hi = match r.end_bound() { Included(k) => Some((k.clone(), true)), Excluded(k) => Some((k.clone(), false)), Unbounded => None };
+        Iter { map: self, last: None, done: false, lo, hi }
     }
     pub fn keys(&self) -> Keys<'_, K, V> {
         Keys { it: self.iter() }
@@ -238,6 +248,8 @@ pub struct Iter<'a, K, V> {
     map: &'a BTreeMap<K, V>,
     last: Option<usize>,
     done: bool,
+    lo: Option<(K, bool)>,
+    hi: Option<(K, bool)>,
 }
 impl<'a, K: Ord, V> Iterator for Iter<'a, K, V> {
     type Item = (&'a K, &'a V);
@@ -245,11 +257,36 @@ impl<'a, K: Ord, V> Iterator for Iter<'a, K, V> {
         if self.done {
             return None;
         }
-        let after = self.last.map(|j| &self.map.slots[j].as_ref().unwrap().0);
-        match self.map.next_idx(after) {
+        // first step of a bounded range: smallest key satisfying the lower bound (one pass); afterwards: successor of the last key
+        let idx = match (&self.last, &self.lo) {
+            (None, Some((lo, incl))) => {
+                let mut best: Option<usize> = None;
+                let mut i = 0;
+                while i < CAP {
+                    if let Some((k, _)) = &self.map.slots[i] {
+                        if k > lo || (*incl && k == lo) {
+                            best = match best {
+                                Some(b) => if k < &self.map.slots[b].as_ref().unwrap().0 { Some(i) } else { Some(b) },
+                                None => Some(i),
+                            };
+                        }
+                    }
+                    i += 1;
+                }
+                best
+            }
+            _ => {
+                let after = self.last.map(|j| &self.map.slots[j].as_ref().unwrap().0);
+                self.map.next_idx(after)
+            }
+        };
+        match idx {
             Some(i) => {
                 let (k, v) = self.map.slots[i].as_ref().unwrap();
                 self.last = Some(i);
+                if let Some((hi, incl)) = &self.hi {
+                    if k > hi || (!*incl && k == hi) { self.done = true; return None; }
+                }
                 Some((k, v))
             }
             None => {
